@@ -171,6 +171,99 @@ def run_impl(cseed):
         return ("other", type(e).__name__, site, str(e)[:60])
 
 
+def entry_case(i_seed):
+    """the other entry points: data classes that cast top-level keys (cast_keyword_str) under every strictness, and parsed
+    functions with fixed, *args and **kwargs parameters: only ParseError leaves, and the body of a function is entered only with
+    values of the declared types"""
+    import utype
+    from utype.utils import exceptions as exc
+    warnings.simplefilter("ignore")
+    rng = random.Random(i_seed)
+    t = dyn.fresh("Ep")
+    okw = {}
+    if rng.random() < 0.4: okw["collect_errors"] = True
+    if rng.random() < 0.2: okw["max_errors"] = rng.choice([1, 2])
+    if rng.random() < 0.3: okw["no_data_loss"] = True
+    if rng.random() < 0.3: okw["no_explicit_cast"] = True
+    kind = rng.choice(["cls", "fn", "fn"])
+
+    class BadStr:
+        def __str__(self):
+            raise RuntimeError("no text")
+        __hash__ = object.__hash__
+    if kind == "cls":
+        okw["cast_keyword_str"] = True
+        if rng.random() < 0.3: okw["addition"] = rng.choice([True, False])
+        src = "class %s(%s):\n    __options__ = Options(%s)\n    v: int = 0\n    w: str = ''\n" % (
+            t, rng.choice(["Schema", "DataClass"]), ", ".join("%s=%r" % kv for kv in okw.items()))
+        dyn.declare(src)
+        K = dyn.get(t)
+        keys = ["v", "w", 1, 2.5, None, True, (1, 2), b"k", b"\xff", "", BadStr(), frozenset([1])]
+        data = {}
+        for _ in range(rng.randint(1, 3)):
+            try:
+                data[rng.choice(keys)] = hostile_value(rng, 1)
+            except TypeError:
+                pass
+        try:
+            K.__from__(data)
+            return ("ok", kind)
+        except exc.ParseError:
+            return ("parse", kind)
+        except RecursionError:
+            return ("recursion", kind)
+        except Exception as e:
+            return "%s\n__from__(%s) let %s escape: %s" % (src, srepr(data, 300), type(e).__name__, str(e)[:100])
+    seen = []
+    dyn._S[t] = seen
+    gen = rng.random() < 0.25
+    src = ("@utype.parse(options=Options(%s))\ndef %s(a: int, b: str = 'x', *rest: int, **more: float):\n    _S[%r].append((a, b, rest, more))\n    %s\n"
+           % (", ".join("%s=%r" % kv for kv in okw.items()), t, t, "yield 1" if gen else "return 1"))
+    dyn.declare(src)
+    f = dyn.get(t)
+    args = [hostile_value(rng, 1) if rng.random() < 0.5 else rng.choice([1, "2", 3.0]) for _ in range(rng.randint(1, 5))]
+    kwargs = {}
+    for j in range(rng.randint(0, 2)):
+        kwargs["k%d" % j] = hostile_value(rng, 1) if rng.random() < 0.5 else rng.choice([1.5, "2", 3])
+    try:
+        r = f(*args, **kwargs)
+        if gen:
+            list(r)
+        out = "ok"
+    except exc.ParseError:
+        out = "parse"
+    except RecursionError:
+        out = "recursion"
+    except Exception as e:
+        return "%s\ncall(*%s, **%s) let %s escape: %s" % (src, srepr(args, 300), srepr(kwargs, 200), type(e).__name__, str(e)[:100])
+    for a, b, rest, more in seen:
+        okv = isinstance(a, int) and isinstance(b, str) and all(isinstance(x, int) for x in rest) and all(isinstance(x, float) for x in more.values())
+        if not okv:
+            return "%s\ncall(*%s, **%s): the body was entered with (a=%r, b=%r, rest=%r, more=%r), which are not the declared types" % (
+                src, srepr(args, 300), srepr(kwargs, 200), a, b, rest, more)
+    return (out, kind)
+
+
+def entry_suite(res, tier, seed):
+    n = 3000 if tier == "quick" else 50000
+    outs = core.pool_map(entry_case, [seed * 1000171 + i for i in range(n)])
+    bad = [o for o in outs if isinstance(o, str)]
+    agg = {}
+    for o in outs:
+        if isinstance(o, tuple) and len(o) == 2:
+            agg["%s/%s" % (o[1], o[0])] = agg.get("%s/%s" % (o[1], o[0]), 0) + 1
+        elif isinstance(o, tuple):
+            agg[o[0]] = agg.get(o[0], 0) + 1
+    res.add_suite("entry-points", n, n, ["seeded: key-casting data classes; parsed functions (a: int, b: str, *rest: int, **more: float), plain and generator"],
+                  "data classes with cast_keyword_str under every strictness given mappings with non-text keys (numbers, None, tuples, "
+                  "undecodable bytes, objects whose __str__ raises); parsed functions and generator functions with fixed, *args and "
+                  "**kwargs parameters under collect_errors / max_errors / strictness, hostile positional and keyword values: only "
+                  "ParseError leaves, and the body is entered only with values of the declared types",
+                  dict(failures=len(bad), outcomes=agg))
+    for o in bad[:3]:
+        res.violations.append(dict(case=repr(dict(kind="entry-point")), observed=o, what=o))
+
+
 def unhashable_finding():
     from utype import Rule
     from typing import List
@@ -266,6 +359,7 @@ def main(tier, seed):
                                    what="a non-ParseError exception or a hang escaped: %r" % (o,)))
     findings.replay_all(res, PID, {"C04-unhashable": unhashable_finding, "C04-huge-exponent": huge_exponent_finding,
                                     "C04-int-str-limit": int_str_limit_finding})
+    entry_suite(res, tier, seed)
     return core.finish(res, "make -C coq Props/C04.vo && coqc (Print Assumptions audit)", "see suites", search=None,
                        level_note="partial: the theorems cover the exception class for every declaration inside wf_ty (no_preserve options) "
                                   "and every data-class declaration; termination is a theorem only for the timestamp loop - resource "
